@@ -10,7 +10,9 @@ Calls(h) == {k \in DOMAIN h : h[k].a = "call"}
 MemoOK(h) == \A a, b \in Calls(h) : h[a].s = h[b].s => h[a].digest = h[b].digest
 NoFailure(h) == \A a \in Calls(h) : h[a].digest >= 0
 
-Verdict(r) == IF ~NoFailure(r.acts) THEN <<"C17:" \o r.fn \o ".raised">>
+\* strict = FALSE: the seed is of a type the function may legitimately refuse (a numpy integer where
+\* python's random.seed accepts only int); refusing it every time is a consistent answer
+Verdict(r) == IF r.strict /\ ~NoFailure(r.acts) THEN <<"C17:" \o r.fn \o ".raised">>
               ELSE IF MemoOK(r.acts) THEN <<>> ELSE <<"C17:" \o r.fn>>
 
 Init == i = 0
